@@ -15,6 +15,7 @@ CONSTANTS
   KF_UnlockedSizeCheck = FALSE
   TruncNow = FALSE
   NoExpiryTest = TRUE
+  RefusalLeak = FALSE
   Sync = FALSE
   KeepHist = TRUE
   OneGate = FALSE
